@@ -140,7 +140,8 @@ Continue(i, mr, idp, s, cm, ct) ==
                   exp |-> [dec |-> dec, accepted |-> (dec = "ok"), client_error |-> (dec # "ok"),
                            ran |-> (dec = "ok"), turn |-> IF dec = "ok" THEN st[s].n + 1 ELSE 0,
                            conformant |-> conformant, hit |-> (cv = "ok" /\ hit),
-                           uniform |-> TRUE]],
+                           \* C03: whatever is presented, the request is answered (status + body)
+                           uniform |-> TRUE, answered |-> TRUE]],
                   \* class of the transition: what the decision depends on
                   <<"Continue", dec, cm, ct, idp = st[s].id, mr = st[s].m, hit,
                     now - st[s].at >= TTL, now - st[s].born >= TTL, st[s].m, i>>)
